@@ -1231,6 +1231,22 @@ func (c *ctx) instr(s *state, in ssa.Instruction, d int) {
 			}
 		}
 		v := c.val(s, x.Val)
+		if v.iface && v.ptr != nil && !v.boxed && v.fn == nil {
+			// `z.z = dst`: the object moves into the field; the place it came from must not be used again
+			src := &ptrv{cell: s.cells[v.ptr.cell.id], path: v.ptr.path}
+			if src.cell == nil || src.cell.param < 0 || len(src.path) != 0 {
+				fail("storing an interface value that is not a parameter")
+			}
+			for _, io := range c.outputs {
+				if io.param == src.cell.param {
+					fail("storing an interface object that was used before")
+				}
+			}
+			val := c.load(src)
+			delete(s.cells, src.cell.id)
+			c.store(pp, val)
+			return
+		}
 		if v.ptr != nil || v.fn != nil || v.iface || v.boxed {
 			fail("storing a pointer, function or interface value")
 		}
